@@ -64,12 +64,16 @@ func showDelivered(d []string) string {
 
 // readBatch reads one batch to its end; returns the delivered messages, the outcome and whether it panicked.
 func readBatch(conn *kafka.Conn) (d []string, outcome string) {
+	return readBatchWithin(conn, 10*time.Second)
+}
+
+func readBatchWithin(conn *kafka.Conn, within time.Duration) (d []string, outcome string) {
 	defer func() {
 		if r := recover(); r != nil {
 			outcome = "panic"
 		}
 	}()
-	conn.SetDeadline(time.Now().Add(10 * time.Second))
+	conn.SetDeadline(time.Now().Add(within))
 	batch := conn.ReadBatchWith(kafka.ReadBatchConfig{MinBytes: 1, MaxBytes: 10 << 20})
 	for {
 		m, err := batch.ReadMessage()
@@ -442,6 +446,7 @@ func main() {
 	earlyCloseCases()
 	readVsCases(thorough)
 	growCases(thorough)
+	chunkCases(thorough)
 	expiredCases(r, thorough)
 	readerCases(r, thorough)
 }
